@@ -888,32 +888,8 @@ template <class T, int N> static void transpose_trace_dim (vp::Ctx& c, int mode)
     T           tr  = E.trace ();
     CHK (T, tr, ex, as, N, mode == M_LATTICE, key, "Matrix" << N << N << ".trace()");
 }
-template <class T> static void outer_case (vp::Ctx& c)
+template <class T> static void outer_check (vp::Ctx& c, const T* a, const T* b)
 {
-    vp::Src& s    = c.s;
-    int      mode = pick_mode (s);
-    mode_label (c, mode);
-    int dim = 2 + (int) s.below (3);
-    c.label (L_DIM2 + dim - 2);
-    if (dim == 2)
-        transpose_trace_dim<T, 2> (c, mode);
-    else if (dim == 3)
-        transpose_trace_dim<T, 3> (c, mode);
-    else
-        transpose_trace_dim<T, 4> (c, mode);
-    T a[4], b[4];
-    gen_arr (s, mode, a, 4);
-    gen_arr (s, mode, b, 4);
-    Distinct dd;
-    for (int i = 0; i < 4; ++i)
-    {
-        dd.add (a[i]);
-        dd.add (b[i]);
-    }
-    bool dist = dd.result ();
-    if (dist) c.label (L_DISTINCT);
-    c.nt (mode == M_LATTICE || dist || mode == M_SPARSE);
-    VP_NOTE (c, tname<T> () << " outerProduct a=" << vstr (a, 4) << " b=" << vstr (b, 4));
     {
         Vec3<T>     A (a[0], a[1], a[2]), B (b[0], b[1], b[2]);
         Matrix33<T> o = outerProduct (A, B);
@@ -942,6 +918,34 @@ template <class T> static void outer_case (vp::Ctx& c)
                     VP_FAIL (c, "outer44/slot", tname<T> () << " outerProduct(V4,V4)[" << i << "][" << j << "] = " << o[i][j] << " but a[" << i << "]*b[" << j << "] = " << want);
                 }
     }
+}
+template <class T> static void outer_case (vp::Ctx& c)
+{
+    vp::Src& s    = c.s;
+    int      mode = pick_mode (s);
+    mode_label (c, mode);
+    int dim = 2 + (int) s.below (3);
+    c.label (L_DIM2 + dim - 2);
+    if (dim == 2)
+        transpose_trace_dim<T, 2> (c, mode);
+    else if (dim == 3)
+        transpose_trace_dim<T, 3> (c, mode);
+    else
+        transpose_trace_dim<T, 4> (c, mode);
+    T a[4], b[4];
+    gen_arr (s, mode, a, 4);
+    gen_arr (s, mode, b, 4);
+    Distinct dd;
+    for (int i = 0; i < 4; ++i)
+    {
+        dd.add (a[i]);
+        dd.add (b[i]);
+    }
+    bool dist = dd.result ();
+    if (dist) c.label (L_DISTINCT);
+    c.nt (mode == M_LATTICE || dist || mode == M_SPARSE);
+    VP_NOTE (c, tname<T> () << " outerProduct a=" << vstr (a, 4) << " b=" << vstr (b, 4));
+    outer_check<T> (c, a, b);
 }
 VP_RANDOM (outer_f, 1000000, 20000000, "outerProduct(V3,V3), outerProduct(V4,V4) every slot == a[i]*b[j] bitwise; transposed/transpose (arbitrary bit patterns incl. NaN/inf/-0, bitwise); trace; float; " C05_RULE_COMMON) { outer_case<float> (c); }
 VP_LABELS (outer_f, C05_LABELS)
@@ -1017,7 +1021,7 @@ template <class T, class MT> static void det_labels44 (vp::Ctx& c, const MT& A)
     if (A[0][3] == 0 && A[1][3] == 0 && A[2][3] == 0 && A[3][3] == 1) c.label (L_AFFINE);
 }
 
-template <class T, int N> static void det_check (vp::Ctx& c, const typename TY<T, N>::M& A, const typename TY<T, N>::M& B, bool lat)
+template <class T, int N> static void det_check (vp::Ctx& c, const typename TY<T, N>::M& A, const typename TY<T, N>::M& B, bool lat, bool with_product = true)
 {
     typedef typename TY<T, N>::M MT;
     QM<N> qa = QM<N>::from (A), qb = QM<N>::from (B);
@@ -1033,13 +1037,15 @@ template <class T, int N> static void det_check (vp::Ctx& c, const typename TY<T
         CHK (T, dT, detA, sa, kd, lat, N == 2 ? "det22-transpose" : N == 3 ? "det33-transpose" : "det44-transpose", "Matrix" << N << N << " det(transposed A)");
     }
     // det(A B) = det(A) det(B)
+    if (with_product)
     {
         MT    P    = A * B;
         T     dP   = P.determinant ();
         QM<N> pabs = absmul (qa, qb);
         quad  perm;
         det (pabs, &perm);
-        CHK (T, dP, detA * detB, perm, N * (N + 1) + kd, lat, N == 2 ? "det22-product" : N == 3 ? "det33-product" : "det44-product", "Matrix" << N << N << " det(A*B) vs det(A)det(B)");
+        // (equality is demanded only when the entries of the product are exact integers too; always so for the -8..8 lattice)
+        CHK (T, dP, detA * detB, perm, N * (N + 1) + kd, lat && max_abs (pabs) < two_mant<T> (), N == 2 ? "det22-product" : N == 3 ? "det33-product" : "det44-product", "Matrix" << N << N << " det(A*B) vs det(A)det(B)");
     }
 }
 template <class T, int N> static void det_dim (vp::Ctx& c, int mode)
@@ -1220,5 +1226,787 @@ VP_LABELS (det_d, C05_LABELS)
 VP_REQUIRE_LABELS (det_d, "lattice", "sparse", "graded", "random", "exact_equality_demanded", "all_nonzero_distinct", "dim2", "dim3", "dim4", "affine_last_column", "det44_skip0", "det44_skip1", "det44_skip2", "det44_skip3", "det44_skip_all", "det44_skip_on_negative_zero")
 VP_FUZZABLE (det_f)
 VP_FUZZABLE (det_d)
+
+// =========================================================================================
+// 7. structured and near-special operands
+//
+// The sub-checks above draw operands whose entries are independent of each other; a code change that
+// special-cases a *structure* (identity, unit-diagonal shear, affine last column, w == 1, zero coefficient ...),
+// or that replaces an exact special-case test by a tolerance, is invisible to them.  The sub-checks of this
+// section run the same per-slot oracles (sections 1-6; same failure keys, same k*u*sum|terms| bounds) on:
+//   * structured bases: identity, unit-diagonal upper / lower triangular, unit-diagonal shear (linear block
+//     only), signed permutation, diagonal, linear (zero translation, affine), projective column with last row
+//     (0..0 1), identity plus one off-diagonal entry (every index pair), affine, rank-deficient (one row an
+//     integer multiple of another: det == 0), dense;
+//   * a per-entry mask over {+0, -0, 1, -1, generic} laid over the base;
+//   * near-special perturbations: an exact 0 becomes +-[1,2)*2^-k, an exact +-1 becomes +-(1 +- 2^-k), k from 4 up
+//     to the digits of the WIDER type involved + 3 (double vector x float matrix: 2^-56);
+//   * magnitudes: translation row scaled by 2^e, e <= 20, or row/column scalings 2^(r_i + c_j), so that the
+//     term a shortcut would drop is large against the k*u*sum|terms| bound of the slot;
+//   * an integer mode of all of this (no perturbations; scalings by exact powers of two), where every result
+//     is exact and equality is demanded.
+// Vectors / quaternions get entries from {+-0, 1, -1, small integer, dense, tiny 2^-k, 1 +- 2^-k, large 2^e} and
+// exact relations between the two operands: equal, opposite, integer and small-rational multiples with
+// non-power-of-two ratios (cross product exactly 0), exactly perpendicular (dot exactly 0), and 2^-k
+// perturbations of those; quaternions: identity, conjugate (vector part of the product exactly 0 on integers).
+// Measured worst err/(u*sum|terms|) on the unchanged tree (quick tier, seeds 1-4) for these operand classes is
+// quoted at the sub-checks; it stays below the values of the random-operand sub-checks (fewer non-zero terms).
+enum
+{
+    L_B_IDENT = L_SINGLE_NZ + 1,
+    L_B_UPPER,
+    L_B_LOWER,
+    L_B_SHEAR,
+    L_B_PERM,
+    L_B_DIAG,
+    L_B_LINEAR,
+    L_B_PROJ,
+    L_B_ONEOFF,
+    L_B_AFFINE,
+    L_B_RANKDEF,
+    L_B_DENSE,
+    L_MASKED,       // the {0,1,-1,generic} mask replaced at least one entry
+    L_NEAR,         // at least one 0 / +-1 entry was perturbed by 2^-k
+    L_SCALE_TRANS,  // translation row scaled by 2^e
+    L_SCALE_DIAG,   // row / column scalings
+    L_UNIT_SHEAR_R, // right operand: unit diagonal, zero translation row and projective column, some non-zero off-diagonal entry in the linear block
+    L_NEAR_IDENT_R, // right operand differs from the identity only by entries of magnitude < 2^-10
+    L_W_NEAR_ONE,   // homogeneous coordinate 0 < |w-1| <= 2^-20 (exact value)
+    L_W_NEAR_ONE_T, // ... 0 < |w-1| <= eps of the NARROWER of the two element types
+    L_W_ONE,        // w == 1 exactly although the projective column is not (0..0 1)
+    L_REL_EQUAL,
+    L_REL_OPPOSITE,
+    L_REL_MULTIPLE, // b = (p/q) a, ratio not a power of two: cross product exactly 0
+    L_REL_PERP,     // a.b == 0 exactly
+    L_REL_PERTURBED,// one component of a related pair scaled by 1 + 2^-k
+    L_Q_IDENT,
+    L_Q_CONJ,
+    L_S_COUNT
+};
+static_assert (L_S_COUNT <= 64, "label ids are bits of a 64-bit mask");
+#define C05S_LABELS                                                                                                  \
+    C05_LABELS, "base_identity", "base_unit_upper_triangular", "base_unit_lower_triangular", "base_unit_diagonal_shear", "base_signed_permutation", "base_diagonal", "base_linear_zero_translation", "base_projective_column", \
+        "base_identity_plus_one_offdiagonal", "base_affine", "base_rank_deficient", "base_dense", "mask_applied", "near_special_perturbation", "translation_scaled", "rows_columns_scaled", "right_operand_unit_diagonal_shear",          \
+        "right_operand_near_identity", "w_within_2^-20_of_one", "w_within_eps_of_narrower_type_of_one", "w_exactly_one_nonaffine", "operands_equal", "operands_opposite", "operands_exact_multiple_non_pow2", "operands_exactly_perpendicular",     \
+        "relation_perturbed_2^-k", "quat_identity_operand", "quat_conjugate_operand"
+
+struct SP
+{
+    int  kmax;   // largest k of the 2^-k perturbations
+    int  emax_t; // largest exponent of the translation scaling
+    int  emax_d; // largest exponent of one row / column scaling
+    bool lat;    // integer mode
+};
+template <class T> static inline T s_generic (vp::Src& s, const SP& p)
+{
+    if (p.lat || s.chance (64)) return (T) lattice_int (s);
+    return dense<T> (s);
+}
+template <class T> static inline T s_generic_nz (vp::Src& s, const SP& p)
+{
+    T v = s_generic<T> (s, p);
+    if (v == 0) v = (T) 3;
+    return v;
+}
+template <class T> static inline T s_tiny (vp::Src& s, const SP& p)
+{
+    int k = (int) s.range (4, p.kmax);
+    if (s.coin ())
+    {
+        T v = std::ldexp ((T) 1, -k);
+        return s.coin () ? v : -v;
+    }
+    return gen::with_exp<T> (s, -k);
+}
+// +-(1 +- 2^-k), k <= digits-1 so that the value is representable and differs from +-1
+template <class T> static inline T s_nearone (vp::Src& s, const SP& p, bool negative)
+{
+    int kk = p.kmax < FInfo<T>::mant - 1 ? p.kmax : FInfo<T>::mant - 1;
+    int k  = (int) s.range (4, kk);
+    T   d  = std::ldexp ((T) 1, -k);
+    T   v  = s.coin () ? (T) 1 + d : (T) 1 - d;
+    return negative ? -v : v;
+}
+template <class T> static inline T s_large (vp::Src& s, const SP& p)
+{
+    int e = (int) s.range (1, p.emax_t);
+    if (p.lat)
+    {
+        T v = (T) lattice_int (s);
+        return std::ldexp (v, e);
+    }
+    return gen::with_exp<T> (s, e);
+}
+template <class T> static inline T s_mask (vp::Src& s, const SP& p)
+{
+    switch (s.below (6))
+    {
+        case 0: return (T) 0;
+        case 1: return (T) 1;
+        case 2: return (T) -1;
+        case 3: return -(T) 0;
+        default: return s_generic<T> (s, p);
+    }
+}
+// vector / quaternion entry
+template <class T> static inline T s_entry (vp::Src& s, const SP& p)
+{
+    switch (s.below (p.lat ? 5 : 8))
+    {
+        case 0: return s.coin () ? (T) 0 : -(T) 0;
+        case 1: return (T) 1;
+        case 2: return (T) -1;
+        case 3: return (T) lattice_int (s);
+        case 4: return s_large<T> (s, p);
+        case 5: return s_tiny<T> (s, p);
+        case 6: return s_nearone<T> (s, p, s.coin ());
+        default: return dense<T> (s);
+    }
+}
+template <class T> static void gen_svec (vp::Src& s, const SP& p, T* v, int n)
+{
+    for (int i = 0; i < n; ++i)
+        v[i] = s_entry<T> (s, p);
+}
+
+enum
+{
+    SB_IDENT,
+    SB_UPPER,
+    SB_LOWER,
+    SB_SHEAR,
+    SB_PERM,
+    SB_DIAG,
+    SB_LINEAR,
+    SB_PROJ,
+    SB_ONEOFF,
+    SB_AFFINE,
+    SB_RANKDEF,
+    SB_DENSE,
+    SB_COUNT
+};
+template <class T, int N, class MT> static void gen_struct (vp::Ctx& c, const SP& p, MT& m)
+{
+    vp::Src& s    = c.s;
+    int      base = (int) s.below (SB_COUNT);
+    c.label (L_B_IDENT + base);
+    for (int i = 0; i < N; ++i)
+        for (int j = 0; j < N; ++j)
+            m[i][j] = (T) (i == j ? 1 : 0);
+    const int L = N == 2 ? 2 : N - 1; // size of the linear block
+    switch (base)
+    {
+        case SB_IDENT: break;
+        case SB_UPPER:
+            for (int i = 0; i < N; ++i)
+                for (int j = i + 1; j < N; ++j)
+                    m[i][j] = s_generic<T> (s, p);
+            break;
+        case SB_LOWER:
+            for (int i = 0; i < N; ++i)
+                for (int j = 0; j < i; ++j)
+                    m[i][j] = s_generic<T> (s, p);
+            break;
+        case SB_SHEAR:
+            for (int i = 0; i < L; ++i)
+                for (int j = 0; j < L; ++j)
+                    if (i != j) m[i][j] = s_generic<T> (s, p);
+            break;
+        case SB_PERM:
+        {
+            int perm[4] = { 0, 1, 2, 3 };
+            for (int i = N - 1; i > 0; --i)
+            {
+                int j   = (int) s.below ((uint64_t) i + 1);
+                int t   = perm[i];
+                perm[i] = perm[j];
+                perm[j] = t;
+            }
+            for (int i = 0; i < N; ++i)
+                for (int j = 0; j < N; ++j)
+                    m[i][j] = (T) 0;
+            for (int i = 0; i < N; ++i)
+                m[i][perm[i]] = s.coin () ? (T) 1 : (T) -1;
+            break;
+        }
+        case SB_DIAG:
+            for (int i = 0; i < N; ++i)
+                m[i][i] = s_generic<T> (s, p);
+            break;
+        case SB_LINEAR:
+            for (int i = 0; i < L; ++i)
+                for (int j = 0; j < L; ++j)
+                    m[i][j] = s_generic<T> (s, p);
+            break;
+        case SB_PROJ:
+            for (int i = 0; i < N - 1; ++i)
+                for (int j = 0; j < N; ++j)
+                    m[i][j] = s_generic<T> (s, p);
+            break;
+        case SB_ONEOFF:
+        {
+            int i = (int) s.below (N);
+            int j = (int) s.below (N - 1);
+            if (j >= i) ++j;
+            m[i][j] = s_generic_nz<T> (s, p);
+            break;
+        }
+        case SB_AFFINE:
+            for (int i = 0; i < N; ++i)
+                for (int j = 0; j < L; ++j)
+                    m[i][j] = s_generic<T> (s, p);
+            break;
+        case SB_RANKDEF:
+        {
+            for (int i = 0; i < N; ++i)
+                for (int j = 0; j < N; ++j)
+                    m[i][j] = s_generic<T> (s, p);
+            int i = (int) s.below (N);
+            int j = (int) s.below (N - 1);
+            if (j >= i) ++j;
+            int  k     = (int) s.range (2, 7);
+            bool byrow = s.coin ();
+            if (s.coin ()) k = -k;
+            for (int t = 0; t < N; ++t)
+                if (byrow)
+                    m[j][t] = (T) k * m[i][t];
+                else
+                    m[t][j] = (T) k * m[t][i];
+            break;
+        }
+        default:
+            for (int i = 0; i < N; ++i)
+                for (int j = 0; j < N; ++j)
+                    m[i][j] = s_generic<T> (s, p);
+            break;
+    }
+    static const int pm_tab[4] = { 0, 0, 40, 120 };
+    int              pm        = pm_tab[s.below (4)];
+    if (pm)
+    {
+        for (int i = 0; i < N; ++i)
+            for (int j = 0; j < N; ++j)
+                if (s.chance (pm)) m[i][j] = s_mask<T> (s, p);
+        c.label (L_MASKED);
+    }
+    static const int pn_tab[4] = { 0, 0, 80, 200 };
+    int              pn        = pn_tab[s.below (4)];
+    if (pn && !p.lat)
+    {
+        bool any = false;
+        for (int i = 0; i < N; ++i)
+            for (int j = 0; j < N; ++j)
+            {
+                T v = m[i][j];
+                if (v != 0 && v != 1 && v != -1) continue;
+                if (!s.chance (pn)) continue;
+                m[i][j] = v == 0 ? s_tiny<T> (s, p) : s_nearone<T> (s, p, v < 0);
+                any     = true;
+            }
+        if (any) c.label (L_NEAR);
+    }
+    int sc = (int) s.below (4);
+    if (sc == 2 && N > 2)
+    {
+        int e = (int) s.range (1, p.emax_t);
+        for (int j = 0; j < N - 1; ++j)
+            m[N - 1][j] = std::ldexp (m[N - 1][j], e);
+        c.label (L_SCALE_TRANS);
+    }
+    else if (sc == 3)
+    {
+        int re[4], ce[4];
+        for (int i = 0; i < N; ++i)
+            re[i] = (int) s.range (0, p.emax_d);
+        for (int i = 0; i < N; ++i)
+            ce[i] = (int) s.range (0, p.emax_d);
+        for (int i = 0; i < N; ++i)
+            for (int j = 0; j < N; ++j)
+                m[i][j] = std::ldexp (m[i][j], re[i] + ce[j]);
+        c.label (L_SCALE_DIAG);
+    }
+}
+template <class MT> static void label_right_operand (vp::Ctx& c, const MT& B, int N)
+{
+    if (N < 3) return;
+    bool unit = true, off = false, nearid = true, ident = true;
+    for (int i = 0; i < N; ++i)
+        for (int j = 0; j < N; ++j)
+        {
+            double v = (double) B[i][j], d = v - (i == j ? 1 : 0);
+            if (d != 0) ident = false;
+            if (std::fabs (d) >= 1.0 / 1024) nearid = false;
+            if (i == j || i == N - 1 || j == N - 1)
+            {
+                if (d != 0) unit = false;
+            }
+            else if (v != 0)
+                off = true;
+        }
+    if (unit && off) c.label (L_UNIT_SHEAR_R);
+    if (nearid && !ident) c.label (L_NEAR_IDENT_R);
+}
+
+// ---- matrix x matrix ----------------------------------------------------------------------
+// measured worst err/(u*sum|terms|): mat22 1.90  mat33 2.56  mat44 3.14 (float), 1.93 / 2.61 / 3.22 (double)
+template <class T> static void struct_matmul_case (vp::Ctx& c)
+{
+    vp::Src& s = c.s;
+    SP       p = { FInfo<T>::mant + 3, 20, 20, s.below (4) == 0 };
+    int      dim = 2 + (int) s.below (4);
+    if (dim > 4) dim = 4;
+    mode_label (c, p.lat ? M_LATTICE : M_RANDOM);
+    c.label (L_DIM2 + dim - 2);
+    c.nt ();
+    if (dim == 2)
+    {
+        Matrix22<T> A, B;
+        gen_struct<T, 2> (c, p, A);
+        gen_struct<T, 2> (c, p, B);
+        VP_NOTE (c, tname<T> () << " N=2 " << (p.lat ? "integer" : "real") << " structured A=" << mstr (A, 2) << " B=" << mstr (B, 2));
+        matmul_check<T, 2> (c, A, B, p.lat);
+    }
+    else if (dim == 3)
+    {
+        Matrix33<T> A, B;
+        gen_struct<T, 3> (c, p, A);
+        gen_struct<T, 3> (c, p, B);
+        label_right_operand (c, B, 3);
+        VP_NOTE (c, tname<T> () << " N=3 " << (p.lat ? "integer" : "real") << " structured A=" << mstr (A, 3) << " B=" << mstr (B, 3));
+        matmul_check<T, 3> (c, A, B, p.lat);
+    }
+    else
+    {
+        Matrix44<T> A, B;
+        gen_struct<T, 4> (c, p, A);
+        gen_struct<T, 4> (c, p, B);
+        label_right_operand (c, B, 4);
+        VP_NOTE (c, tname<T> () << " N=4 " << (p.lat ? "integer" : "real") << " structured A=" << mstr (A, 4) << " B=" << mstr (B, 4));
+        matmul_check<T, 4> (c, A, B, p.lat);
+        matmul44_static<T> (c, A, B);
+    }
+}
+#define C05S_MAT_RULE "both operands structured: base from {identity, unit-diagonal upper/lower triangular, unit-diagonal shear, signed permutation, diagonal, linear, projective column, identity + one off-diagonal entry (any index pair), affine, rank-deficient, dense} + per-entry mask over {+0,-0,1,-1,generic} + near-special perturbations (0 -> +-2^-k, +-1 -> +-(1 +- 2^-k), k = 4..digits+3) + translation row x 2^e (e <= 20) or row/column scalings; 1/4 of the cases in integer mode (exact, equality demanded); "
+VP_RANDOM (struct_matmul_f, 500000, 10000000, "Matrix22/33/44<float> operator*, *=, A*=A, Matrix44::multiply 2-/3-argument on structured operands; " C05S_MAT_RULE "oracle and bounds as matmul_f; every case non-trivial") { struct_matmul_case<float> (c); }
+VP_LABELS (struct_matmul_f, C05S_LABELS)
+#define C05S_MAT_REQ "lattice", "random", "exact_equality_demanded", "dim2", "dim3", "dim4", "base_identity", "base_unit_upper_triangular", "base_unit_lower_triangular", "base_unit_diagonal_shear", "base_signed_permutation", "base_diagonal", "base_linear_zero_translation", "base_projective_column", "base_identity_plus_one_offdiagonal", "base_affine", "base_rank_deficient", "base_dense", "mask_applied", "near_special_perturbation", "translation_scaled", "rows_columns_scaled"
+VP_REQUIRE_LABELS (struct_matmul_f, C05S_MAT_REQ, "right_operand_unit_diagonal_shear", "right_operand_near_identity")
+VP_RANDOM (struct_matmul_d, 500000, 10000000, "Matrix22/33/44<double> operator*, *=, A*=A, Matrix44::multiply 2-/3-argument on structured operands; " C05S_MAT_RULE "oracle and bounds as matmul_d; every case non-trivial") { struct_matmul_case<double> (c); }
+VP_LABELS (struct_matmul_d, C05S_LABELS)
+VP_REQUIRE_LABELS (struct_matmul_d, C05S_MAT_REQ, "right_operand_unit_diagonal_shear", "right_operand_near_identity")
+
+// ---- vector x matrix ----------------------------------------------------------------------
+// exact homogeneous coordinate of (v,1).M
+template <class S, int NV, class MT> static quad exact_w (const S* v, const MT& m)
+{
+    quad w = (quad) m[NV][NV];
+    for (int i = 0; i < NV; ++i)
+        w += (quad) v[i] * (quad) m[i][NV];
+    return w;
+}
+template <class S, class T, int NV, class MT> static void label_w (vp::Ctx& c, const S* v, const MT& m)
+{
+    quad w = exact_w<S, NV> (v, m), d = qabs (w - 1);
+    bool affine = m[NV][NV] == 1;
+    for (int i = 0; i < NV; ++i)
+        if (m[i][NV] != 0) affine = false;
+    quad epsn = (quad) (FInfo<S>::eps () > FInfo<T>::eps () ? FInfo<S>::eps () : FInfo<T>::eps ());
+    if (d > 0 && d <= (quad) std::ldexp (1.0, -20)) c.label (L_W_NEAR_ONE);
+    if (d > 0 && d <= epsn) c.label (L_W_NEAR_ONE_T);
+    if (d == 0 && !affine) c.label (L_W_ONE);
+}
+// as fix_w, for operands of any magnitude: when |w| < 2^-10 sum|terms of w| the corner entry is replaced by a value
+// that dominates the other terms of w (integer mode: +-2^e >= 2 sum|other terms|)
+template <class S, class T, int NV, class MT> static void fix_w_struct (vp::Ctx& c, const S* v, MT& m, bool lat)
+{
+    quad wo = 0, so = 0;
+    for (int i = 0; i < NV; ++i)
+    {
+        quad t = (quad) v[i] * (quad) m[i][NV];
+        wo += t;
+        so += qabs (t);
+    }
+    quad w = wo + (quad) m[NV][NV], sw = so + qabs ((quad) m[NV][NV]);
+    if (sw > 0 && qabs (w) >= sw / 1024) return;
+    c.label (L_W_FIXED);
+    if (so == 0)
+    {
+        m[NV][NV] = (T) (c.s.coin () ? 1 : -2);
+        return;
+    }
+    T nv;
+    if (lat)
+    {
+        int e;
+        std::frexp ((double) so, &e);
+        nv = std::ldexp ((T) 1, e + 1);
+    }
+    else
+    {
+        double f = 1.25 + c.s.unit ();
+        nv       = (T) ((double) so * f);
+    }
+    if (c.s.coin ()) nv = -nv;
+    m[NV][NV] = nv;
+}
+// measured worst: plain slots 3.2 u*sum|terms|, homogeneous err/bound 0.97
+template <class S, class T> static void struct_vecmat_case (vp::Ctx& c)
+{
+    vp::Src&  s    = c.s;
+    const int wide = FInfo<S>::mant > FInfo<T>::mant ? FInfo<S>::mant : FInfo<T>::mant;
+    SP        p    = { wide + 3, 20, 20, s.below (4) == 0 };
+    int       combo = (int) s.below (6); // 0 V2xM22, 1 V2xM33, 2 V3xM33, 3 and 5 V3xM44, 4 V4xM44
+    if (combo == 5) combo = 3;
+    mode_label (c, p.lat ? M_LATTICE : M_RANDOM);
+    c.nt ();
+    S v[4];
+    switch (combo)
+    {
+        case 0:
+        {
+            c.label (L_DIM2);
+            Matrix22<T> m;
+            gen_struct<T, 2> (c, p, m);
+            gen_svec (s, p, v, 2);
+            VP_NOTE (c, "V2<" << tname<S> () << "> x M22<" << tname<T> () << "> structured v=" << vstr (v, 2) << " m=" << mstr (m, 2));
+            vm22_check<S, T> (c, v, m, p.lat);
+            break;
+        }
+        case 1:
+        {
+            c.label (L_DIM3);
+            Matrix33<T> m;
+            gen_struct<T, 3> (c, p, m);
+            gen_svec (s, p, v, 2);
+            fix_w_struct<S, T, 2> (c, v, m, p.lat);
+            label_w<S, T, 2> (c, v, m);
+            VP_NOTE (c, "V2<" << tname<S> () << "> x M33<" << tname<T> () << "> structured v=" << vstr (v, 2) << " m=" << mstr (m, 3));
+            vm33h_check<S, T> (c, v, m, p.lat);
+            break;
+        }
+        case 2:
+        {
+            c.label (L_DIM3);
+            Matrix33<T> m;
+            gen_struct<T, 3> (c, p, m);
+            gen_svec (s, p, v, 3);
+            VP_NOTE (c, "V3<" << tname<S> () << "> x M33<" << tname<T> () << "> structured v=" << vstr (v, 3) << " m=" << mstr (m, 3));
+            vm33p_check<S, T> (c, v, m, p.lat);
+            break;
+        }
+        case 3:
+        {
+            c.label (L_DIM4);
+            Matrix44<T> m;
+            gen_struct<T, 4> (c, p, m);
+            gen_svec (s, p, v, 3);
+            fix_w_struct<S, T, 3> (c, v, m, p.lat);
+            label_w<S, T, 3> (c, v, m);
+            VP_NOTE (c, "V3<" << tname<S> () << "> x M44<" << tname<T> () << "> structured v=" << vstr (v, 3) << " m=" << mstr (m, 4));
+            vm44h_check<S, T> (c, v, m, p.lat);
+            break;
+        }
+        default:
+        {
+            c.label (L_DIM4);
+            Matrix44<T> m;
+            gen_struct<T, 4> (c, p, m);
+            gen_svec (s, p, v, 4);
+            VP_NOTE (c, "V4<" << tname<S> () << "> x M44<" << tname<T> () << "> structured v=" << vstr (v, 4) << " m=" << mstr (m, 4));
+            vm44p_check<S, T> (c, v, m, p.lat);
+            break;
+        }
+    }
+}
+#define C05S_VM_RULE "structured matrix (as struct_matmul) x vector with entries from {+-0, 1, -1, small integer, large 2^e (e <= 20), tiny 2^-k, +-(1 +- 2^-k), dense}; k up to the digits of the wider of the two element types + 3, so that the homogeneous coordinate w of V2xM33 / V3xM44 lies at 1, within 2^-k of 1 down to below the rounding of either type, or anywhere; all spellings (*, *=, multVecMatrix, multDirMatrix, src==dst) bit-identical; oracle and bounds as vecmat_*; every case non-trivial"
+#define C05S_VM_REQ "lattice", "random", "exact_equality_demanded", "dim2", "dim3", "dim4", "base_identity", "base_unit_upper_triangular", "base_unit_lower_triangular", "base_unit_diagonal_shear", "base_signed_permutation", "base_diagonal", "base_linear_zero_translation", "base_projective_column", "base_identity_plus_one_offdiagonal", "base_affine", "base_rank_deficient", "base_dense", "mask_applied", "near_special_perturbation", "translation_scaled", "rows_columns_scaled", "w_within_2^-20_of_one", "w_within_eps_of_narrower_type_of_one", "w_exactly_one_nonaffine", "w_forced_nonzero"
+VP_RANDOM (struct_vecmat_ff, 500000, 10000000, "float vector x float matrix: " C05S_VM_RULE) { struct_vecmat_case<float, float> (c); }
+VP_LABELS (struct_vecmat_ff, C05S_LABELS)
+VP_REQUIRE_LABELS (struct_vecmat_ff, C05S_VM_REQ)
+VP_RANDOM (struct_vecmat_dd, 500000, 10000000, "double vector x double matrix: " C05S_VM_RULE) { struct_vecmat_case<double, double> (c); }
+VP_LABELS (struct_vecmat_dd, C05S_LABELS)
+VP_REQUIRE_LABELS (struct_vecmat_dd, C05S_VM_REQ)
+VP_RANDOM (struct_vecmat_fd, 500000, 10000000, "float vector x double matrix: " C05S_VM_RULE) { struct_vecmat_case<float, double> (c); }
+VP_LABELS (struct_vecmat_fd, C05S_LABELS)
+VP_REQUIRE_LABELS (struct_vecmat_fd, C05S_VM_REQ)
+VP_RANDOM (struct_vecmat_df, 500000, 10000000, "double vector x float matrix: " C05S_VM_RULE) { struct_vecmat_case<double, float> (c); }
+VP_LABELS (struct_vecmat_df, C05S_LABELS)
+VP_REQUIRE_LABELS (struct_vecmat_df, C05S_VM_REQ)
+
+// ---- determinants and minors -----------------------------------------------------------------
+// float: det(A*B) multiplies eight entries; it is checked only when no partial product can leave the normal
+// range (entries of |A||B| below 2^38 and, where non-zero, not below 2^-28)
+template <class T, int N, class MT> static bool product_in_range (const MT& A, const MT& B)
+{
+    if (sizeof (T) > 4) return true;
+    double amax = 0, bmax = 0, amin = 1e300, bmin = 1e300;
+    for (int i = 0; i < N; ++i)
+        for (int j = 0; j < N; ++j)
+        {
+            double a = std::fabs ((double) A[i][j]), b = std::fabs ((double) B[i][j]);
+            if (a > amax) amax = a;
+            if (b > bmax) bmax = b;
+            if (a != 0 && a < amin) amin = a;
+            if (b != 0 && b < bmin) bmin = b;
+        }
+    if (amax == 0 || bmax == 0) return true;
+    return amax * bmax * N < std::ldexp (1.0, 30) && amin * bmin >= std::ldexp (1.0, -28);
+}
+// measured worst: det22 1.9  det33 3.4  det44 4.6  minorOf44 3.6  fastMinor44 3.5  det(AB) 3.5 / 5.1 / 8.3
+template <class T> static void struct_det_case (vp::Ctx& c)
+{
+    vp::Src& s = c.s;
+    SP       p = { FInfo<T>::mant + 3, sizeof (T) == 4 ? 12 : 20, sizeof (T) == 4 ? 3 : 10, s.below (4) == 0 };
+    int      dim = 2 + (int) s.below (4);
+    if (dim > 4) dim = 4;
+    mode_label (c, p.lat ? M_LATTICE : M_RANDOM);
+    c.label (L_DIM2 + dim - 2);
+    c.nt ();
+    if (dim == 2)
+    {
+        Matrix22<T> A, B;
+        gen_struct<T, 2> (c, p, A);
+        gen_struct<T, 2> (c, p, B);
+        VP_NOTE (c, tname<T> () << " N=2 structured A=" << mstr (A, 2) << " B=" << mstr (B, 2));
+        det_check<T, 2> (c, A, B, p.lat, product_in_range<T, 2> (A, B));
+    }
+    else if (dim == 3)
+    {
+        Matrix33<T> A, B;
+        gen_struct<T, 3> (c, p, A);
+        gen_struct<T, 3> (c, p, B);
+        VP_NOTE (c, tname<T> () << " N=3 structured A=" << mstr (A, 3) << " B=" << mstr (B, 3));
+        minors33<T> (c, p.lat ? M_LATTICE : M_RANDOM, A);
+        det_check<T, 3> (c, A, B, p.lat, product_in_range<T, 3> (A, B));
+    }
+    else
+    {
+        Matrix44<T> A, B;
+        gen_struct<T, 4> (c, p, A);
+        gen_struct<T, 4> (c, p, B);
+        VP_NOTE (c, tname<T> () << " N=4 structured A=" << mstr (A, 4) << " B=" << mstr (B, 4));
+        det_labels44<T> (c, A);
+        minors44<T> (c, p.lat ? M_LATTICE : M_RANDOM, A);
+        det_check<T, 4> (c, A, B, p.lat, product_in_range<T, 4> (A, B));
+    }
+}
+#define C05S_DET_RULE "determinant (2/3/4), det(A^T), minorOf every (r,c), fastMinor, cofactor expansion along every row and column, det(A*B)=det(A)det(B) on structured operands; " C05S_MAT_RULE "float: translation scaling e <= 12, row/column scalings e <= 3, det(A*B) only when no partial product can leave the normal range; oracle and bounds as det_*; every case non-trivial"
+VP_RANDOM (struct_det_f, 300000, 8000000, "float: " C05S_DET_RULE) { struct_det_case<float> (c); }
+VP_LABELS (struct_det_f, C05S_LABELS)
+VP_REQUIRE_LABELS (struct_det_f, C05S_MAT_REQ, "affine_last_column", "det44_skip0", "det44_skip1", "det44_skip2", "det44_skip3", "det44_skip_all", "det44_skip_on_negative_zero")
+VP_RANDOM (struct_det_d, 300000, 8000000, "double: " C05S_DET_RULE) { struct_det_case<double> (c); }
+VP_LABELS (struct_det_d, C05S_LABELS)
+VP_REQUIRE_LABELS (struct_det_d, C05S_MAT_REQ, "affine_last_column", "det44_skip0", "det44_skip1", "det44_skip2", "det44_skip3", "det44_skip_all", "det44_skip_on_negative_zero")
+
+// ---- vectors and quaternions: special entries and exact relations between the operands ---------------
+// a: small-integer vector; b in an exact relation to it.  Everything stays an integer, so dot / cross / Hamilton
+// products are exact and equality is demanded (cross of exact multiples == 0, dot of perpendicular == 0).
+static const int REL_P[] = { 3, 5, 6, 7, 9, 10, 11, 12, 13, 14, 15, 17, 19, 21, 23, 25, 27, 29, 31 };
+template <class T> static void struct_vec_case (vp::Ctx& c)
+{
+    vp::Src& s   = c.s;
+    int      dim = 2 + (int) s.below (3);
+    int      rel = (int) s.below (8); // 0-2 unrelated special entries, 3 equal, 4 opposite, 5 multiple, 6 perpendicular, 7 perturbed relation
+    SP       p   = { FInfo<T>::mant + 3, 20, 20, false };
+    T        a[4] = { 0, 0, 0, 0 }, b[4] = { 0, 0, 0, 0 };
+    bool     lat  = false;
+    int      kind = -1;
+    c.label (L_DIM2 + dim - 2);
+    c.nt ();
+    if (rel <= 2)
+    {
+        p.lat = lat = rel == 0;
+        gen_svec (s, p, a, 4);
+        gen_svec (s, p, b, 4);
+        mode_label (c, lat ? M_LATTICE : M_RANDOM);
+    }
+    else
+    {
+        // base direction with coordinates in -16..16, not all zero
+        int ai[4];
+        for (int i = 0; i < 4; ++i)
+            ai[i] = i < dim ? (int) s.range (-16, 16) : 0;
+        if (ai[0] == 0 && ai[1] == 0 && (dim < 3 || ai[2] == 0) && (dim < 4 || ai[3] == 0)) ai[(int) s.below (dim)] = 5;
+        int bi[4] = { 0, 0, 0, 0 };
+        int q     = 1;
+        kind      = rel == 7 ? 3 + (int) s.below (4) : rel;
+        lat       = true;
+        mode_label (c, M_LATTICE);
+        switch (kind)
+        {
+            case 3:
+                for (int i = 0; i < 4; ++i)
+                    bi[i] = ai[i];
+                c.label (L_REL_EQUAL);
+                break;
+            case 4:
+                for (int i = 0; i < 4; ++i)
+                    bi[i] = -ai[i];
+                c.label (L_REL_OPPOSITE);
+                break;
+            case 5:
+            {
+                int pnum = s.pick (REL_P);
+                q        = 1 << (int) s.below (3); // 1, 2, 4: ratio pnum/q with pnum odd or 6, 10, 12, 14
+                if (s.coin ()) pnum = -pnum;
+                for (int i = 0; i < 4; ++i)
+                {
+                    bi[i] = pnum * ai[i];
+                    ai[i] = q * ai[i];
+                }
+                c.label (L_REL_MULTIPLE);
+                break;
+            }
+            default:
+            {
+                // exactly perpendicular: 2-D (-y, x); 3-D a x r for an integer r; 4-D (-y, x, -w, z)
+                if (dim == 2)
+                {
+                    bi[0] = -ai[1];
+                    bi[1] = ai[0];
+                }
+                else if (dim == 3)
+                {
+                    int r[3];
+                    for (int i = 0; i < 3; ++i)
+                        r[i] = (int) s.range (-16, 16);
+                    bi[0] = ai[1] * r[2] - ai[2] * r[1];
+                    bi[1] = ai[2] * r[0] - ai[0] * r[2];
+                    bi[2] = ai[0] * r[1] - ai[1] * r[0];
+                }
+                else
+                {
+                    bi[0] = -ai[1];
+                    bi[1] = ai[0];
+                    bi[2] = -ai[3];
+                    bi[3] = ai[2];
+                }
+                int k = (int) s.range (1, 9);
+                for (int i = 0; i < 4; ++i)
+                    bi[i] *= k;
+                c.label (L_REL_PERP);
+                break;
+            }
+        }
+        for (int i = 0; i < 4; ++i)
+        {
+            a[i] = (T) ai[i];
+            b[i] = (T) bi[i];
+        }
+        if (s.coin ())
+        {
+            // a common power-of-two scale on each operand keeps every product exact
+            int ea = (int) s.range (-20, 20);
+            int eb = (int) s.range (-20, 20);
+            for (int i = 0; i < 4; ++i)
+            {
+                a[i] = std::ldexp (a[i], ea);
+                b[i] = std::ldexp (b[i], eb);
+            }
+            lat = ea >= 0 && eb >= 0; // (the exactness test of tol_of assumes integers)
+        }
+        if (rel == 7)
+        {
+            // perturb one component: the relation holds only to 2^-k
+            int i  = (int) s.below (dim);
+            int kk = (int) s.range (4, FInfo<T>::mant - 1);
+            T   f  = (T) 1 + std::ldexp ((T) 1, -kk);
+            if (s.coin ())
+                b[i] = b[i] * f;
+            else
+                a[i] = a[i] * f;
+            lat = false;
+            c.label (L_REL_PERTURBED);
+        }
+    }
+    VP_NOTE (c, tname<T> () << " dim=" << dim << " structured/related a=" << vstr (a, dim) << " b=" << vstr (b, dim));
+    vec_check<T> (c, a, b, dim, lat);
+    if (kind >= 3 && rel != 7)
+    {
+        // whatever the power-of-two scales, every product of components is exact here (integer significands below
+        // 2^13): parallel operands have an exactly zero cross product, perpendicular ones an exactly zero dot product
+        if (kind <= 5 && dim == 2)
+        {
+            Vec2<T> A (a[0], a[1]), B (b[0], b[1]);
+            T       x1 = A.cross (B), x2 = A % B;
+            VP_REQUIRE (c, x1 == 0 && x2 == 0, "vec2-cross-parallel-exact", tname<T> () << " cross of exactly parallel " << vstr (a, 2) << " and " << vstr (b, 2) << " = " << x1 << " / " << x2 << ", not 0");
+        }
+        if (kind <= 5 && dim == 3)
+        {
+            Vec3<T> A (a[0], a[1], a[2]), B (b[0], b[1], b[2]);
+            Vec3<T> x1 = A.cross (B), x2 = A % B, x3 = A;
+            x3 %= B;
+            VP_REQUIRE (c, x1.x == 0 && x1.y == 0 && x1.z == 0 && x2.x == 0 && x2.y == 0 && x2.z == 0 && x3.x == 0 && x3.y == 0 && x3.z == 0, "vec3-cross-parallel-exact", tname<T> () << " cross of exactly parallel " << vstr (a, 3) << " and " << vstr (b, 3) << " = " << vstr (x1, 3) << " / " << vstr (x2, 3) << " / " << vstr (x3, 3) << ", not 0");
+        }
+        if (kind == 6)
+        {
+            T d = dim == 2 ? Vec2<T> (a[0], a[1]).dot (Vec2<T> (b[0], b[1])) : dim == 3 ? Vec3<T> (a[0], a[1], a[2]).dot (Vec3<T> (b[0], b[1], b[2])) : Vec4<T> (a[0], a[1], a[2], a[3]).dot (Vec4<T> (b[0], b[1], b[2], b[3]));
+            VP_REQUIRE (c, d == 0, "vec-dot-perpendicular-exact", tname<T> () << " dot of exactly perpendicular " << vstr (a, dim) << " and " << vstr (b, dim) << " = " << d << ", not 0");
+        }
+    }
+    if (dim >= 3)
+    {
+        // outerProduct: every slot one correctly rounded product, whatever the operand values
+        T a4[4] = { a[0], a[1], a[2], dim == 4 ? a[3] : (T) 0 }, b4[4] = { b[0], b[1], b[2], dim == 4 ? b[3] : (T) 0 };
+        outer_check<T> (c, a4, b4);
+    }
+}
+#define C05S_VEC_RULE "Vec2/3/4 dot,^,cross,%,%= and outerProduct on (3/8) operands with entries from {+-0, 1, -1, small integer, large 2^e, tiny 2^-k, +-(1 +- 2^-k), dense}, (5/8) exactly related operands built from a base direction with integer coordinates |c| <= 16: equal, opposite, ratio p/q with p from 19 non-powers-of-two up to 31 and q in {1,2,4} (cross product exactly 0), exactly perpendicular (dot exactly 0), each optionally scaled by 2^e per operand, and the same with one component scaled by 1 + 2^-k; equality demanded on integer operands; every case non-trivial"
+VP_RANDOM (struct_vec_f, 500000, 10000000, "float: " C05S_VEC_RULE) { struct_vec_case<float> (c); }
+VP_LABELS (struct_vec_f, C05S_LABELS)
+#define C05S_VEC_REQ "lattice", "random", "exact_equality_demanded", "dim2", "dim3", "dim4", "operands_equal", "operands_opposite", "operands_exact_multiple_non_pow2", "operands_exactly_perpendicular", "relation_perturbed_2^-k"
+VP_REQUIRE_LABELS (struct_vec_f, C05S_VEC_REQ)
+VP_RANDOM (struct_vec_d, 500000, 10000000, "double: " C05S_VEC_RULE) { struct_vec_case<double> (c); }
+VP_LABELS (struct_vec_d, C05S_LABELS)
+VP_REQUIRE_LABELS (struct_vec_d, C05S_VEC_REQ)
+
+template <class T> static void struct_quat_case (vp::Ctx& c)
+{
+    vp::Src& s   = c.s;
+    int      rel = (int) s.below (6); // 0-2 unrelated special entries, 3 identity operand, 4 conjugate, 5 equal
+    SP       p   = { FInfo<T>::mant + 3, 20, 20, rel == 0 || s.coin () };
+    T        a[4], b[4];
+    bool     lat = p.lat;
+    c.nt ();
+    gen_svec (s, p, a, 4);
+    gen_svec (s, p, b, 4);
+    if (rel == 3)
+    {
+        T* id = s.coin () ? a : b;
+        id[0] = (T) 1;
+        id[1] = id[2] = id[3] = (T) 0;
+        if (!p.lat && s.coin ())
+        {
+            // nearly the identity
+            id[0] = s_nearone<T> (s, p, false);
+            for (int i = 1; i < 4; ++i)
+                id[i] = s_tiny<T> (s, p);
+        }
+        c.label (L_Q_IDENT);
+    }
+    else if (rel == 4)
+    {
+        b[0] = a[0];
+        for (int i = 1; i < 4; ++i)
+            b[i] = -a[i];
+        c.label (L_Q_CONJ);
+    }
+    else if (rel == 5)
+    {
+        for (int i = 0; i < 4; ++i)
+            b[i] = a[i];
+        c.label (L_REL_EQUAL);
+    }
+    mode_label (c, lat ? M_LATTICE : M_RANDOM);
+    VP_NOTE (c, tname<T> () << " structured q1=(r,x,y,z)=" << vstr (a, 4) << " q2=" << vstr (b, 4));
+    quat_check<T> (c, a, b, lat);
+}
+#define C05S_QUAT_RULE "Quat operator*, *=, q*=q, ^ on operands with entries from {+-0, 1, -1, small integer, large 2^e, tiny 2^-k, +-(1 +- 2^-k), dense} (half of the cases integers only: exact, equality demanded), one operand the identity or within 2^-k of it, q2 = conjugate of q1, q2 = q1; oracle and bounds as quat_*; every case non-trivial"
+VP_RANDOM (struct_quat_f, 300000, 6000000, "float: " C05S_QUAT_RULE) { struct_quat_case<float> (c); }
+VP_LABELS (struct_quat_f, C05S_LABELS)
+VP_REQUIRE_LABELS (struct_quat_f, "lattice", "random", "exact_equality_demanded", "quat_identity_operand", "quat_conjugate_operand", "operands_equal")
+VP_RANDOM (struct_quat_d, 300000, 6000000, "double: " C05S_QUAT_RULE) { struct_quat_case<double> (c); }
+VP_LABELS (struct_quat_d, C05S_LABELS)
+VP_REQUIRE_LABELS (struct_quat_d, "lattice", "random", "exact_equality_demanded", "quat_identity_operand", "quat_conjugate_operand", "operands_equal")
 
 VP_MAIN ("C05")
